@@ -69,8 +69,11 @@ class Check:
             self.bad(rule, key, where, what, witness)
         return cond
 
-    def floor(self, name, measured, minimum):
-        self.floors.append((name, measured, minimum))
+    def floor(self, name, measured, confirmed):
+        """`confirmed` is the instance count confirmed by hand on the pinned tree.  The rule counts as vacuous (analysis broken)
+        only when clearly fewer instances are found - two thirds of the confirmed count - so that merging two sites or
+        replacing an if-chain by a switch in an otherwise correct tree is not reported as a broken analysis."""
+        self.floors.append((name, measured, max(1, (2 * confirmed + 2) // 3) if confirmed > 0 else 0))
 
     # ---- finish ----------------------------------------------------------
     def _known(self):
